@@ -1,6 +1,6 @@
 """C05 — nothing becomes configuration without passing the target's model (DESIGN.md section 6, C05)."""
 import driver
-from props import proto
+from props import proto, c04
 
 
 def run(ctx):
@@ -8,8 +8,21 @@ def run(ctx):
     H = driver.Harness
     # (a) chunked streaming of the document: pure 64-bit offset arithmetic, document contents not materialised
     hs = [H('VerifC05Chunking', 'pkg/pluginregistry', {'pkg/pluginregistry/zz_verif_c05.go': 'c05/zz_verif_c05.go'}, unwind=7)]
+    # (b) the document the plugin is shown vs the configuration that becomes readable: histories of Sets (and the rollback of
+    # the last one) through the REAL proposal Validate / Commit over the real configuration store; the harness is the C06
+    # data-path harness with the document assertions switched on
+    f = dict(c04.NB); f.update(c04.V2C)
+    f['pkg/northbound/gnmi/v2/zz_verif_c03.go'] = 'c03/zz_verif_c03.go'
+    f['pkg/northbound/gnmi/v2/zz_verif_c04.go'] = 'c04/zz_verif_c04.go'
+    f['pkg/northbound/gnmi/v2/zz_verif_c06.go'] = 'c06/zz_verif_c06.go'
+    cuts = {c04.BUILDER_GET: 'atomix-map-by-name', c04.PROTO_CODEC: 'noop'}
+    hd = [H('VerifC06History', 'pkg/northbound/gnmi/v2', f, unwind=16, opts={'params': {'sets': n, 'again': 0, 'docs': 1}, 'cuts': cuts, 'maporder': mo},
+            timeout_ms=300000 if quick else 1800000, replay_attempts=16)
+          for n, mo in ([(2, 0)] if quick else [(2, 0), (2, 1), (3, 0)])]
     if not ctx.only or 'VerifC05Chunking' in ctx.only:
         driver.check_harnesses(ctx, hs)
+    if not ctx.only or 'VerifC06History' in ctx.only:
+        driver.check_harnesses(ctx, hd)
     if ctx.only:
         driver.write_evidence(ctx, 'model_checking', 'partial run', {}, [])
         return
